@@ -2,16 +2,16 @@
    AST on every run) are the expressions the hand-written model uses.  Every lemma is an obligation of the tie: when an
    expression of the code changes, the generated file changes with it and the lemma stops compiling even if no sampled input
    tells old and new behaviour apart.  Statements: the model's definition equals the translated expression, for all arguments. *)
-From Aldy Require Import Base Consts Filter Exprs_cov.
+From Aldy Require Import Base Consts Filter Exprs_cov TieTac.
 Import List.
 Open Scope Q_scope.
 
 (* coverage.py: quality_filter, basic_filter *)
 Lemma qual_keep_tied : forall p o, q_ok p o = qual_keep (inZ (fst o)) (inZ (snd o)) (p_min_quality p) (p_min_mapq p).
-Proof. reflexivity. Qed.
+Proof. first [reflexivity | intros; unfold q_ok, qual_keep; tie_sem]. Qed.
 
 Lemma basic_filter_tied : forall p c m cn,
   basic_filter p c m cn =
   basic_pass (inZ (coverage c m)) (basic_min_cov (p_min_coverage p) (inZ (total c m)) (basic_thres 0 cn (p_threshold p))).
-Proof. reflexivity. Qed.
+Proof. first [reflexivity | intros; unfold basic_filter, basic_pass, basic_min_cov, basic_thres, q_or; tie_sem]. Qed.
 
